@@ -809,7 +809,7 @@ impl Property for C16 {
         512
     }
     fn cases(&self, tier: Tier) -> u64 {
-        tier.pick(150_000, 3_000_000)
+        tier.pick(150_000, 8_000_000)
     }
     fn run_tape(&self, tape: &[u8], ctx: &mut Ctx) -> Result<(), Failure> {
         let mut t = Tape::new(tape);
